@@ -24,6 +24,7 @@ META = {
                   "not re-added; small scope.",
     "design_ref": "5.4 C25",
 }
+META["level_text"] += _driver.SYSTEM_LEVEL_TEXT
 
 
 def run(ctx):
